@@ -58,3 +58,9 @@ class Gen:
 ALNUM = "abcdefghijklmnopqrstuvwxyzABCDEFGHIJKLMNOPQRSTUVWXYZ0123456789"
 TOKEN = ALNUM + "-.!%*_+`'~"
 UNRESERVED = ALNUM + "-_.!~*'()"
+
+
+# per-process offset for loopback ports: two check processes running at the same time on one machine must not
+# bind the same observation sockets (a replay file carries the ports it was generated with)
+import os as _os, time as _time
+PROC_NONCE = (_os.getpid() * 131 + int(_time.time())) % 30000
